@@ -160,6 +160,9 @@ pub fn run_case(case: &Case) -> Outcome {
     out
 }
 
+/// longest rendering (in sink calls) whose single-fault positions are swept exhaustively
+const SWEEP_CAP: usize = 320;
+
 fn plan_kind_fmt(p: &FmtPlan) -> &'static str {
     match p {
         FmtPlan::None => "none",
@@ -179,7 +182,7 @@ fn cases_for_value(seed: u64, i: u64, thorough: bool) -> Vec<Case> {
     let base = Case {
         type_name: name.to_string(),
         value_seed: r.next(),
-        max_dim: [0, 1, 2, 2, 3, 3, 4, 6][r.below(8)],
+        max_dim: [0, 1, 2, 2, 3, 3, 4, 6, 8, 12][r.below(10)],
         simple: r.chance(50),
         present_permille: [0, 300, 500, 500, 800, 1000][r.below(6)],
         sink: SinkSpec::Fmt(FmtPlan::None),
@@ -196,12 +199,23 @@ fn cases_for_value(seed: u64, i: u64, thorough: bool) -> Vec<Case> {
     let io_probe = run_case(&with(SinkSpec::Io(IoPlan::None)));
     cases.push(with(SinkSpec::Io(IoPlan::None)));
     let m = io_probe.history.len();
-    // every single-fault position (sweep is exhaustive for this value)
-    for k in 0..n {
+    // every single-fault position: exhaustive for renderings of at most SWEEP_CAP sink calls; for longer ones
+    // (large dynamic dimensions of nested vector types) the first and last 16 calls and a seeded stride in between
+    let positions = |n: usize, r: &mut Rng| -> Vec<usize> {
+        if n <= SWEEP_CAP {
+            return (0..n).collect();
+        }
+        let stride = n / (SWEEP_CAP - 32) + 1;
+        let off = r.below(stride);
+        let mut v: Vec<usize> = (0..16).chain((16 + off..n - 16).step_by(stride)).chain(n - 16..n).collect();
+        v.dedup();
+        v
+    };
+    for k in positions(n, &mut r) {
         cases.push(with(SinkSpec::Fmt(FmtPlan::FailOnce(k))));
         cases.push(with(SinkSpec::Fmt(FmtPlan::FailFrom(k))));
     }
-    for k in 0..m {
+    for k in positions(m, &mut r) {
         cases.push(with(SinkSpec::Io(IoPlan::At(vec![(k, IoAct::Error)]))));
         cases.push(with(SinkSpec::Io(IoPlan::At(vec![(k, IoAct::Interrupted)]))));
         cases.push(with(SinkSpec::Io(IoPlan::At(vec![(k, IoAct::Short(1))]))));
@@ -276,8 +290,13 @@ struct Stats {
 
 fn run_range(seed: u64, from: u64, to: u64, thorough: bool) -> Stats {
     let mut st = Stats::default();
+    let trace_slow = std::env::var("DST_TRACE_SLOW").is_ok();
     for i in from..to {
+        let t_val = Instant::now();
         let cases = cases_for_value(seed, i, thorough);
+        if trace_slow {
+            eprintln!("value {i}: {} {} cases, probe {:.2}s", cases[0].type_name, cases.len(), t_val.elapsed().as_secs_f64());
+        }
         st.values += 1;
         *st.types.entry(cases[0].type_name.clone()).or_default() += 1;
         for (ci, case) in cases.iter().enumerate() {
@@ -306,12 +325,18 @@ fn run_range(seed: u64, from: u64, to: u64, thorough: bool) -> Stats {
                     "history": o.history.iter().map(|e| format!("{}:{}/{}", e.kind, e.taken, e.len)).collect::<Vec<_>>(),
                 }));
             }
-            if let Some((class, _)) = &o.violation {
-                let key = finding_key(class, case);
+            if let Some((class, msg)) = &o.violation {
+                let key = finding_key_of(class, case, msg);
                 if st.violations.len() < 256 && !st.violations.contains_key(&key) {
                     st.violations.insert(key, (i, ci, case.clone(), o));
                 }
             }
+        }
+        if trace_slow {
+            eprintln!("DONE value {i}");
+        }
+        if trace_slow && t_val.elapsed().as_secs_f64() > 1.0 {
+            eprintln!("SLOW value {i}: {} {} cases, {:.2}s, max_dim {}", cases[0].type_name, cases.len(), t_val.elapsed().as_secs_f64(), cases[0].max_dim);
         }
     }
     st
@@ -417,7 +442,7 @@ fn minimise(mut case: Case, class: &Class, known_keys: &[String]) -> (Case, Outc
     // finally: the simplest type of the table that shows the same class of violation
     for (name, _) in TYPES.iter() {
         let name = name.to_string();
-        if known_keys.contains(&format!("{:?}:{}", class, name)) {
+        if known_keys.iter().any(|k| *k == format!("{:?}:{}", class, name) || k.starts_with(&format!("{:?}:{}:", class, name))) {
             continue; // never minimise an unlisted finding into the identity of a listed one
         }
         transforms.push(Box::new(move |c| {
@@ -433,6 +458,9 @@ fn minimise(mut case: Case, class: &Class, known_keys: &[String]) -> (Case, Outc
         }
         if try_case!(cand.clone()) {
             continue;
+        }
+        if matches!(case.sink, SinkSpec::Fmt(FmtPlan::None) | SinkSpec::Io(IoPlan::None)) {
+            continue; // the violation shows without any fault: there is no fault position to search again
         }
         let is_io = matches!(cand.sink, SinkSpec::Io(_));
         let probe = run_case(&Case { sink: if is_io { SinkSpec::Io(IoPlan::None) } else { SinkSpec::Fmt(FmtPlan::None) }, ..cand.clone() });
@@ -479,6 +507,16 @@ struct ReplayFile {
 /// Identity of a finding for the known-findings file: what fails, not which seed found it.
 fn finding_key(class: &Class, case: &Case) -> String {
     format!("{:?}:{}", class, case.type_name)
+}
+
+/// A panic is identified by what panicked as well, so that a listed panic never hides another one on the same type.
+fn finding_key_of(class: &Class, case: &Case, msg: &str) -> String {
+    if *class == Class::Panic {
+        let what: String = msg.rsplit(": ").next().unwrap_or("").chars().filter(|c| c.is_ascii_alphanumeric() || *c == ' ').take(48).collect();
+        format!("{}:{}", finding_key(class, case), what.trim())
+    } else {
+        finding_key(class, case)
+    }
 }
 
 fn known_findings(path: &str) -> Vec<(String, String)> {
@@ -602,6 +640,7 @@ fn main() {
             continue; // one VIOLATION line and one replay file per run; the other keys are listed in the evidence
         }
         let (class, msg) = o.violation.clone().unwrap();
+        eprintln!("found {key} at value {vi} case {ci}: {}; minimising ...", msg.chars().take(300).collect::<String>());
         let (mcase, mo, steps) = minimise(case.clone(), &class, &known.iter().map(|(k, _)| k.clone()).collect::<Vec<_>>());
         let dir = format!("{verif_dir}/replays");
         let _ = std::fs::create_dir_all(&dir);
@@ -621,7 +660,7 @@ fn main() {
     violations = unknown_keys.len() as i32;
     let wall = t0.elapsed().as_secs_f64();
     let rule = "one case = (type, seeded value with presence pattern and dimensions, sink kind, fault plan) executed against the real Display code; \
-for every value the fault-free case, EVERY single-fault position (fmt: reject-once and reject-from at each write_str call; io: error, EINTR, 1-byte short write at each write call) \
+for every value the fault-free case, EVERY single-fault position for renderings of at most 320 sink calls - for longer ones the first and last 16 calls and a seeded stride in between - (fmt: reject-once and reject-from at each write_str call; io: error, EINTR, 1-byte short write at each write call) \
 and seeded multi-fault plans (capacity, random rejection, fault sets, mixed io faults, all-short) are run; the thorough tier adds EVERY pair of rejected write_str calls for renderings of at most 40 calls. distinct_nontrivial = number of distinct histories \
 (type, presence, dimensions, sink kind, per-call offered/accepted bytes and verdict, return value) among cases in which at least one injected fault actually fired";
     let ev = serde_json::json!({
